@@ -69,6 +69,10 @@ func runSmall(c *core.Ctx) []core.Obligation {
 	smallRepeatedOneElementPerOccurrence(c, b)
 	smallMemoFreshPerCompilation(c, b)
 	smallDecoderReaderNotWrapped(c, b)
+	smallThriftBoolElemNormalised(c, b)
+	smallFieldNumberLimit(c, b)
+	smallMapTemplateEntryComplete(c, b)
+	smallTokenizerFloat(c, b)
 	smallStringOptionNull(c, b)
 	smallStringOptionMarshaler(c, b)
 	return b.out
@@ -987,6 +991,203 @@ func smallRawVarintByte(c *core.Ctx, b *ob) {
 	}
 	if n == 0 {
 		b.addP(props, core.Discharged, "raw-varint-byte:none", "proto", "no integer is written as a raw byte outside encodeVarint: every length and tag goes through the varint encoder")
+	}
+}
+
+// S45 — protobuf field numbers run from 1 to 2^29-1 inclusive. Wherever proto compares a field
+// number with that bound the largest number must stay admitted: f > 2^29-1 (or f >= 2^29)
+// rejects what must be rejected, f >= 2^29-1 also rejects a legal field.
+func smallFieldNumberLimit(c *core.Ctx, b *ob) {
+	props := []string{"C19", "C07"}
+	key := "field-number:largest-admitted"
+	const maxFN = 1<<29 - 1
+	n, bad := 0, ""
+	for _, fn := range c.RepoFunctions() {
+		if fn.Blocks == nil || !strings.HasPrefix(shortName(fn), "proto.") {
+			continue
+		}
+		for _, blk := range fn.Blocks {
+			for _, in := range blk.Instrs {
+				bo, ok := in.(*ssa.BinOp)
+				if !ok {
+					continue
+				}
+				k, isK := constInt(bo.Y)
+				op := bo.Op
+				if !isK {
+					k, isK = constInt(bo.X)
+					switch op { // K op x  ==  x flip(op) K
+					case token.GTR:
+						op = token.LSS
+					case token.GEQ:
+						op = token.LEQ
+					case token.LSS:
+						op = token.GTR
+					case token.LEQ:
+						op = token.GEQ
+					}
+				}
+				if !isK || (k != maxFN && k != maxFN+1) {
+					continue
+				}
+				switch op {
+				case token.GTR, token.GEQ, token.LSS, token.LEQ:
+				default:
+					continue
+				}
+				n++
+				// the set rejected (for >, >=) or admitted (for <, <=) must split at maxFN | maxFN+1
+				okSplit := (op == token.GTR && k == maxFN) || (op == token.GEQ && k == maxFN+1) || (op == token.LEQ && k == maxFN) || (op == token.LSS && k == maxFN+1)
+				if !okSplit {
+					bad = c.InstrPos(bo)
+				}
+			}
+		}
+	}
+	switch {
+	case bad != "":
+		b.addP(props, core.Violation, key, bad, "a comparison of a field number with the 2^29-1 bound is off by one: the largest legal field number (536870911) is rejected (or 2^29 admitted), so a valid message that uses it cannot be scanned or rewritten although Unmarshal accepts it")
+	case n == 0:
+		b.addP(props, core.Info, key, "-", "proto does not compare field numbers with the 2^29-1 bound")
+	default:
+		b.addP(props, core.Discharged, key, "-", fmt.Sprintf("%d comparisons, each splitting at 2^29-1 | 2^29", n))
+	}
+}
+
+// S46 — a map template is rewritten entry by entry through a synthetic {"key":…,"value":…}
+// document. Both members must always be present in it: a member dropped by omitempty (an empty
+// string key, a zero value) leaves the entry rewriter without a rule for that field, and the
+// input's first entry leaks into the result.
+func smallMapTemplateEntryComplete(c *core.Ctx, b *ob) {
+	props := []string{"C19"}
+	key := "map-template:entry-has-key-and-value"
+	fn := c.Lookup("proto.parseRewriteTemplateMap")
+	if fn == nil {
+		b.addP(props, core.Undecided, key, "-", "proto.parseRewriteTemplateMap not found")
+		return
+	}
+	n, bad := 0, ""
+	for _, ci := range callsIn(fn) {
+		if !strings.HasSuffix(calleeName(ci.Common()), "json.Marshal") {
+			continue
+		}
+		for _, a := range ci.Common().Args {
+			mi, ok := a.(*ssa.MakeInterface)
+			if !ok {
+				continue
+			}
+			st, ok := mi.X.Type().Underlying().(*types.Struct)
+			if !ok {
+				continue
+			}
+			n++
+			for i := 0; i < st.NumFields(); i++ {
+				if strings.Contains(st.Tag(i), "omitempty") {
+					bad = c.InstrPos(ci)
+				}
+			}
+		}
+	}
+	switch {
+	case n == 0:
+		b.addP(props, core.Undecided, key, c.FuncPos(fn), "the synthetic entry document was not found")
+	case bad != "":
+		b.addP(props, core.Violation, key, bad, "the synthetic map-entry document omits empty members (omitempty): for an entry with an empty-string key (or a zero value) the entry rewriter has no rule for that field, and the key of the input's first entry shows through ({\"\":5} applied to {hello:1} gives {hello:5})")
+	default:
+		b.addP(props, core.Discharged, key, c.FuncPos(fn), "key and value are always present in the synthetic entry")
+	}
+}
+
+// S47 — Tokenizer.Float returns the value of the number token, whatever its syntactic kind:
+// integer literals can exceed the 64-bit range (18446744073709551616, -9223372036854775809), where
+// Uint()/Int() give 0. Every path of Float goes through strconv.ParseFloat.
+func smallTokenizerFloat(c *core.Ctx, b *ob) {
+	props := []string{"C17"}
+	key := "tokenizer:float-parses-the-literal"
+	fn := c.Lookup("json.(*Tokenizer).Float")
+	if fn == nil {
+		b.addP(props, core.Undecided, key, "-", "json.(*Tokenizer).Float not found")
+		return
+	}
+	bad := ""
+	n := 0
+	for _, r := range returnsOf(fn) {
+		if len(r.Results) != 1 {
+			continue
+		}
+		n++
+		if !dependsOn(r.Results[0], func(x ssa.Value) bool {
+			call, ok := x.(*ssa.Call)
+			return ok && calleeName(call.Common()) == "strconv.ParseFloat"
+		}) {
+			bad = c.InstrPos(r)
+		}
+	}
+	switch {
+	case n == 0:
+		b.addP(props, core.Undecided, key, c.FuncPos(fn), "Float has no return")
+	case bad != "":
+		b.addP(props, core.Violation, key, bad, "Tokenizer.Float returns a value that does not come from strconv.ParseFloat on some path (an integer shortcut through Uint()/Int()): integer literals outside the 64-bit range give 0 instead of their value, and -0 gives +0")
+	default:
+		b.addP(props, core.Discharged, key, c.FuncPos(fn), "every path parses the literal with strconv.ParseFloat")
+	}
+}
+
+// S44 — compact lists and sets of booleans may announce element type 1 (TRUE) or 2 (FALSE = BOOL):
+// writers differ, readers accept both. The list and set decoders map TRUE to BOOL before they
+// compare the announced element type with the expected one; compared first, a conformant
+// list<bool> with element type 1 is a "mismatch" (skipped, or an error in strict mode).
+func smallThriftBoolElemNormalised(c *core.Ctx, b *ob) {
+	props := []string{"C13", "C08"}
+	trueV, ok := thriftConst(c, "TRUE")
+	if !ok {
+		b.addP(props, core.Undecided, "thrift:bool-element-type-normalised", "-", "thrift.TRUE not found")
+		return
+	}
+	n := 0
+	for _, name := range []string{"thrift.decodeFuncSliceOf$1", "thrift.decodeFuncMapAsSetOf$1"} {
+		fn := c.Lookup(name)
+		key := "thrift:bool-element-type-normalised:" + closureIndex.ReplaceAllString(name, "")
+		if fn == nil {
+			b.addP(props, core.Undecided, key, "-", name+" not found")
+			continue
+		}
+		var norm, cmp *ssa.BasicBlock
+		for _, blk := range fn.Blocks {
+			for _, in := range blk.Instrs {
+				bo, ok := in.(*ssa.BinOp)
+				if !ok || !strings.HasSuffix(bo.X.Type().String(), "thrift.Type") {
+					continue
+				}
+				if k, isK := constInt(bo.Y); isK && k == trueV && bo.Op == token.EQL {
+					norm = blk
+					continue
+				}
+				if _, isK := bo.Y.(*ssa.Const); isK {
+					continue
+				}
+				if _, isK := bo.X.(*ssa.Const); isK {
+					continue
+				}
+				if (bo.Op == token.NEQ || bo.Op == token.EQL) && cmp == nil {
+					cmp = blk
+				}
+			}
+		}
+		n++
+		switch {
+		case cmp == nil:
+			b.addP(props, core.Undecided, key, c.FuncPos(fn), "no comparison of the announced element type with the expected one found")
+		case norm == nil:
+			b.addP(props, core.Violation, key, c.FuncPos(fn), name+" does not map element type TRUE to BOOL: a list<bool> written with element type 1, as other implementations do, does not decode")
+		case !(norm == cmp || norm.Dominates(cmp)):
+			b.addP(props, core.Violation, key, c.PosOf(cmp.Instrs[0].Pos()), name+" compares the announced element type with the expected one before mapping TRUE to BOOL: a conformant list<bool> announced with element type 1 is treated as a type mismatch (skipped silently, an error in strict mode)")
+		default:
+			b.addP(props, core.Discharged, key, c.FuncPos(fn), "TRUE is mapped to BOOL before the element type is compared")
+		}
+	}
+	if n == 0 {
+		b.addP(props, core.Undecided, "thrift:bool-element-type-normalised", "-", "list/set decoders not found")
 	}
 }
 
